@@ -183,7 +183,7 @@ PROPS = {
     ),
     "C04": dict(
         kani=[],
-        verus=["partition_filters", "run_dedupe_defaults", "was_modified_step"],
+        verus=["partition_filters", "run_dedupe_defaults", "was_modified_step", "report_timestamp"],
         prefixes=["C04.", "C02.partition_filters.only_regular", "C02.partition_filters.files_of_another_length",
                   "C02.partition_filters.group_skipped", "C02.partition_filters.no_staleness"],
         category="proof",
@@ -297,6 +297,7 @@ REAL_REPLAY = [
     ("c20_lock_first_move", "C20.lock_first.", "lock", "move"),
     ("c20_file_lock_new", "C20.file_lock.", "lock_shared", "remove"),
     ("walk_decisions", "C09.depth.", "depth", None),
+    ("report_timestamp", "C04.report.", "report_timestamp", None),
     ("c05_safe_remove", "C0", "faults", ("hardlink", False)),
     ("c05_execute_remove", "C0", "faults", ("remove", False)),
     ("c05_execute_hardlink", "C0", "faults", ("hardlink", False)),
